@@ -296,8 +296,9 @@ def main(argv):
     }
     if getattr(mod, "EXHAUSTIVE_NOTE", None):
         ev["coverage"]["exhaustive_subspace"] = mod.EXHAUSTIVE_NOTE
-    os.makedirs(os.path.join(HERE, "evidence"), exist_ok=True)
-    json.dump(ev, open(os.path.join(HERE, "evidence", prop + ".json"), "w"), indent=1, default=repr)
+    evdir = os.environ.get("VV_EVIDENCE_DIR") or os.path.join(HERE, "evidence")
+    os.makedirs(evdir, exist_ok=True)
+    json.dump(ev, open(os.path.join(evdir, prop + ".json"), "w"), indent=1, default=repr)
 
     print("%s %s seed=%d: %d evaluations, %d distinct non-trivial, %d workers, %.0fs; per part/mode %s" % (
         prop, tier, seed, evaluations, len(nontrivial), len(specs), wall, json.dumps(per_mode)))
